@@ -163,8 +163,14 @@ pub fn gen_map_for(rng: &mut Rng, text: &str, own_name: Option<&str>) -> MapSpec
     sources_content,
     names,
     file: if rng.chance(200) { Some("out.js".into()) } else { None },
-    source_root: None,
-    debug_id: None,
+    // sourceRoot is applied to the announced source names while streaming
+    source_root: match rng.below(12) {
+      0 => Some("root".into()),
+      1 => Some("webpack:///".into()),
+      2 => Some(String::new()),
+      _ => None,
+    },
+    debug_id: if rng.chance(80) { Some("DBG-1".into()) } else { None },
   }
 }
 
